@@ -12,6 +12,7 @@ LEVEL = 'other'
 TECHNIQUE = ('static analysis: abstract reconstruction of the <=7-node tree description from straight-line generator MIR, then order-type enumeration of the one input coordinate '
              'the tree touches (values touched only through comparisons) against the textbook piece table; nothing of /repo is executed')
 RULES = {
+    'C17.R7': 'the generators accept exactly the component indices below the dimension: a guard on (index, dim) is `index < dim`',
     'C17.R6': "the predefined trees are read by the evaluator's convention: a row is satisfied iff mat·x - bias <= 0 (closed), label bit i <=> row i (shared with C09.R1/R2)",
     'C17.R5': helpers.RULE_TEXT,
     'C17.R1': 'locality: terminals are identity(dim)/zero_idx(dim,row) modified only at [row,row]/bias[row]; decisions are unit(dim,row) modified only at [0,row]/bias[0]; row is the parameter',
@@ -21,7 +22,7 @@ RULES = {
 }
 CONTROL_REV = '078b142'  # thorough tier: the rules must still report the defects found (and since fixed) on the original tree
 CONTROLS = [('C17.R2', 'partial_hard_shrink')]
-FLOORS = {'C17.R6': 4, 'C17.R5': 4, 'C17.R1': 6, 'C17.R2': 6, 'C17.R3': 4, 'C17.R4': 4}
+FLOORS = {'C17.R7': 7, 'C17.R6': 4, 'C17.R5': 4, 'C17.R1': 6, 'C17.R2': 6, 'C17.R3': 4, 'C17.R4': 4}
 EXPLANATION = ('The generator code is straight-line; its tree (decisions s·x_row <= t, leaves (slope, offset)) is reconstructed from the from_aff/add_child_node calls and the point '
                'writes on the affine forms, and interpreted over the finite set of order types of x_row relative to the thresholds under the generator\'s own assertions.')
 DOES_NOT_DECIDE = 'values of the chain generators for all dims beyond the label discipline; numeric content'
@@ -226,6 +227,7 @@ def order_types(thr_vals):
 
 def run(ctx):
     helpers.run_for(ctx)
+    prune.check_index_guards(ctx, 'C17.R7', ['partial_ReLU', 'partial_leaky_ReLU', 'partial_hard_tanh', 'partial_hard_shrink', 'partial_hard_sigmoid', 'partial_threshold', 'class_characterization'])
     helpers.share_from(ctx, 'c09', 'C17.R6', ['AffTree::evaluate_decision#', 'AffTree::index_from_label#', 'AffTree::find_terminal#', 'AffTree::evaluate#'])
     F = ctx.facts
     for gen, spec in TEXTBOOK.items():
